@@ -396,6 +396,20 @@ def check_keywords(repo, rep):
                              keywords=dict(kws), keyword_to_val=dict(k2v),
                              __class__=lx)
             it = absint.Interp(repo, mod)
+            # whatever else the constructor derives from the operator
+            # table (a word table, ...) is derived here the same way
+            init = mod.functions.get('Lexer.__init__')
+            if init is not None and len(init.params()) == 2:
+                yo = absint.Obj('yaql_operators', operators=dict(table),
+                                name_value_op='=>')
+                try:
+                    absint.Interp(repo, mod, lambda n, a, k: (
+                        absint.Sym(n),) if n.startswith('re.') else None
+                    ).run(init.node, {init.params()[0]: slf,
+                                      init.params()[1]: yo})
+                except (absint.Unsupported, absint._Raise):
+                    pass
+                slf.attrs['_operators_table'] = dict(table)
             args = {tok: t}
             if len(fi.params()) > 1:
                 args[fi.params()[0]] = slf
